@@ -10,7 +10,17 @@
    user stream's chain has exactly ceil(size / sector) sectors (ceil(size / 64)
    mini sectors below the 4096 cutoff); an unallocated entry is blank when its
    type byte is 0, its links are NO_STREAM, its name is empty (length field 0 or
-   2) and every other field is zero. *)
+   2) and every other field is zero.
+
+   Rules 1-44 are the original rules.  Rules 45-50 were added when the converse
+   direction (proofs/WfOpen.v: every accepted image is opened by open_strict) was
+   proved; each closes a place where the checker asked less than MS-CFB:
+     45  at most MAXREGSECT sectors follow the header (after rule 9)
+     46  the root entry's colour flag is 0 or 1          (after rule 29)
+     47  the root entry's name field passes name_ok       (after rule 29)
+     48  an unallocated entry's name-length field is even (after rule 31)
+     49  a storage entry's start sector is 0              (after rule 32)
+     50  a storage entry's size is 0                      (after rule 32) *)
 From Cfb.model Require Import Base Names.
 From Cfb.gen Require Import Consts.
 Open Scope N_scope.
@@ -190,6 +200,8 @@ Definition wf_check (bytes : list byte) : N :=
   if negb (len mod sl =? 0) then 8 else                        (* whole number of sectors *)
   if len <? 2 * sl then 9 else
   let ns := len / sl - 1 in
+  (* rule 45: sector numbers are regular: at most MAXREGSECT sectors follow the header *)
+  if MAX_REGULAR_SECTOR <? ns then 45 else
   let secs := split_chunks (S (N.to_nat (len / sl))) sl bytes in
   let sec := fun i => match nthN secs (i + 1) with Some s => s | None => [] end in
   let per := sl / 4 in
@@ -249,14 +261,25 @@ Definition wf_check (bytes : list byte) : N :=
   if negb (w_type root =? OBJ_TYPE_ROOT) then 27 else
   if negb (match scalars (w_name root) with Some n => list_eqb N.eqb n ROOT_DIR_NAME | None => false end) then 28 else
   if negb ((w_left root =? NO_STREAM) && (w_right root =? NO_STREAM)) then 29 else
+  (* rule 46: the root entry's colour flag is red or black; rule 47: its name field is
+     formed like every other (even length field, terminator, zero padding) *)
+  if negb ((w_color root =? COLOR_RED) || (w_color root =? COLOR_BLACK)) then 46 else
+  if negb (match name_ok root with Some _ => true | None => false end) then 47 else
   (* the tree: every storage's children a search tree with full bounds, no red-red, ids unique *)
   match tree_walk (S (length es)) es [w_child root] [0] with None => 30 | Some reach =>
   (* every allocated entry is reachable; every other entry is blank *)
   if negb (forallb (fun '(i, e) => if memN i reach then true else blank_entry e) (index_from es 0)) then 31 else
+  (* rule 48: the name-length field of an unallocated entry is even (0 or 2) *)
+  if negb (forallb (fun '(i, e) => if memN i reach then true else w_namelen e mod 2 =? 0) (index_from es 0)) then 48 else
   (* stream entries: no CLSID, no times, no children *)
   if negb (forallb (fun '(i, e) => if (w_type e =? OBJ_TYPE_STREAM) && memN i reach
                                    then w_clsid_zero e && (w_ctime e =? 0) && (w_mtime e =? 0) && (w_child e =? NO_STREAM)
                                    else true) (index_from es 0)) then 32 else
+  (* rules 49, 50: storage entries: start sector and size are zero (MS-CFB 2.6.3) *)
+  if negb (forallb (fun '(i, e) => if (w_type e =? OBJ_TYPE_STORAGE) && memN i reach
+                                   then w_start e =? 0 else true) (index_from es 0)) then 49 else
+  if negb (forallb (fun '(i, e) => if (w_type e =? OBJ_TYPE_STORAGE) && memN i reach
+                                   then w_len e =? 0 else true) (index_from es 0)) then 50 else
   (* MiniFAT chain *)
   match chain_of fat first_minifat with None => 33 | Some mf_ids =>
   if negb (num_minifat =? lenN mf_ids) then 34 else
